@@ -130,3 +130,9 @@ package resolver
 // not end. The key that is looked up is the same value that is recorded.
 //@ flow extends-cycle-test-uses-the-recorded-key C16: func=(resolverQuery).parseTSConfig ; in=resolver ; site=lookup * ; when-map=visited ; keypath=phi:file
 //@ flow extends-cycle-record-uses-the-real-path C16: func=(resolverQuery).parseTSConfig ; in=resolver ; site=mapupdate visited ; mapkey=phi:file
+
+// C06 (tsconfig "target" decides the default of useDefineForClassFields): TypeScript defaults it to true iff the
+// target is ES2022 or later (tsconfig reference, #useDefineForClassFields). So the "below ES2022" class is exactly
+// the closed historical set es3, es5, es6/es2015 ... es2021, and nothing in that set may be classified at-or-above.
+//@ guarded target-below-es2022-is-the-historical-set C06: func=ParseTSConfigJSON ; in=resolver ; site=store TSConfig.Target const config.TSTargetBelowES2022 ; scenario=tsconfig_target_es2021_define ; require-any=true:*=="es3" || true:*=="es5" || true:*=="es6" || true:*=="es201*" || true:*=="es2020" || true:*=="es2021"
+//@ guarded target-at-or-above-es2022-excludes-older C06: func=ParseTSConfigJSON ; in=resolver ; site=store TSConfig.Target const config.TSTargetAtOrAboveES2022 ; scenario=tsconfig_target_es2021_define ; require-any=true:*=="es2022" || true:*=="es2023" || true:*=="es2024" || true:*=="es2025" || true:*=="es2026" || true:*=="es2027" || true:*=="es2028" || true:*=="es2029" || true:*=="es203*" || true:*=="esnext"
